@@ -161,7 +161,7 @@ static Verdict runPageStats(const W &w) {
   if (excludedCase(w, lv, vd)) return vd;
   Bytes bytes; std::string err; bool refused = false;
   if (!writeWith(w, lv, bytes, err, refused)) { vd.vacuous = true; vd.label("writer_refused"); return vd; }
-  prd::FileOut fo; prd::Strict st; st.check_total_uncompressed = false; st.check_rg_total_byte_size = false;
+  prd::FileOut fo; prd::Strict st; st.check_total_uncompressed = false; st.check_rg_total_byte_size = false; st.check_page_null_count = false;
   if (!prd::read_file(bytes, fo, err, st)) { vd.vacuous = true; vd.label("structure_invalid(reported_by_C05)"); return vd; }
   bool saw = false, nanfirst = false;
   for (size_t g = 0; g < fo.chunks.size(); g++)
